@@ -131,6 +131,11 @@ fn load_package(
         )));
     };
 
+    // One order for the files of a package, however it is compiled: `check`/`build` sort their
+    // inputs by path, so the entry file must not be special here. The order is observable
+    // (a trait has to be declared before it is implemented; of two items of one name the later wins).
+    files.sort_by(|a, b| a.path.cmp(&b.path));
+
     let imports = collect_imports(&files);
     Ok(PackageUnit {
         name,
